@@ -65,8 +65,11 @@
 (*   Withdrawn        every signature used in a sent main transaction is   *)
 (*                    carried by a request that is in the pool at the time *)
 (*   MainBeforeNvb    the main transaction is not sent from the smallest   *)
-(*                    NotValidBefore of its pooled requests on             *)
+(*                    NotValidBefore on of the pooled requests the running *)
+(*                    instance heard of and has not yet handed over the    *)
+(*                    fallback of                                          *)
 (*   FallbackPooled   a fallback is sent only for a request still pooled   *)
+(*                    (or pooled when the block being processed came)      *)
 (*   MainOnce         (trace level) an instance does not hand over a main  *)
 (*                    transaction again that the node took from it         *)
 (*   NothingLost      (trace level) the pool holds no request the running  *)
@@ -154,9 +157,9 @@ Withdrawn(TR, s) ==
 MainBeforeNvb(TR, held, s) ==
     s.kind = "main" => \A r \in held : TR[r].main = s.main => s.h < TR[r].nvb
 
-\* a fallback is sent for a request that is in the pool (judged on at-rest schedules only: between a block's pool refresh
-\* and the removal notification reaching the service a queued fallback may still go out)
-FallbackPooled(s) == s.kind = "fb" => s.req \in s.pool
+\* a fallback is sent for a request that is in the pool, or was when the block being processed came (ppool: the last
+\* removal notification of a block and the block notification reach mainLoop's select together, it takes either first)
+FallbackPooled(s, ppool) == s.kind = "fb" => s.req \in s.pool \cup ppool
 
 \* the service's own rules every send must obey (Withdrawn apart: see the Impl module)
 BeyondSendFails(TM, TR, arrived, held, s) ==
